@@ -489,6 +489,92 @@ def decision_rows(fn: ast.FunctionDef) -> List[Tuple[str, str, str]]:
     return sorted(rows)
 
 
+OBS_ATOMS = {"folder_state is NOT_PRESENT_IN_STATE": "absent", "self.file_system_requires_scan": "rq",
+             "folder_state['scanned_this_step']": "scanned", "self._cached_uuid is None": "idNone",
+             "folder_state.get('uuid') == self._cached_uuid": "idSame", "folder_state['uuid'] == self._cached_uuid": "idSame",
+             "self._cached_uuid == folder_state.get('uuid')": "idSame", "self._cached_uuid is not None": "!idNone",
+             "folder_state is not NOT_PRESENT_IN_STATE": "!absent", "self.files": "files"}
+OBS_BITS = ("absent", "rq", "scanned", "idNone", "idSame")
+
+
+def observe_truth():
+    """`FolderObservation.observe` EXECUTED symbolically (pure ast) for every valuation of its five Boolean inputs - folder absent
+    from the state dictionary, requires_scan, the folder's scanned_this_step, no uuid cached yet, cached uuid equals the folder's -:
+    what is returned, which expression becomes the reported health, whether the cache / the cached uuid are written. A SEMANTIC
+    table: any rewrite of the control flow with the same meaning (swapped branches, De Morgan, guard clauses, helper locals) gives
+    the same rows. Strict: an unknown test atom, a loop or a non-Boolean `if` test is refused."""
+    fn = find_method(class_def(parse(OBS), "FolderObservation"), "observe")
+
+    class Ret(Exception):
+        pass
+
+    def run(val: Dict[str, bool]):
+        env: Dict[str, object] = {}
+        raw: Dict[str, str] = {}
+
+        def ev(e):
+            """Boolean value of `e`, or None when it is not a Boolean over the atoms"""
+            if isinstance(e, ast.BoolOp):
+                vs = [ev(x) for x in e.values]
+                if any(v is None for v in vs):
+                    return None
+                return all(vs) if isinstance(e.op, ast.And) else any(vs)
+            if isinstance(e, ast.UnaryOp) and isinstance(e.op, ast.Not):
+                v = ev(e.operand)
+                return None if v is None else not v
+            if isinstance(e, ast.Name) and isinstance(env.get(e.id), bool):
+                return env[e.id]
+            key = OBS_ATOMS.get(_flat(ast.unparse(e)))
+            if key is None:
+                return None
+            return (not val[key[1:]]) if key.startswith("!") else val[key]
+
+        out = {"ret": None}
+
+        def block(body):
+            for st in body:
+                if isinstance(st, ast.Expr) and isinstance(st.value, ast.Constant):
+                    continue
+                if isinstance(st, ast.If):
+                    t = ev(st.test)
+                    if t is None:
+                        raise ValueError(f"FolderObservation.observe: test not over the known atoms: {_flat(ast.unparse(st.test))}")
+                    block(st.body if t else st.orelse)
+                elif isinstance(st, ast.Assign) and len(st.targets) == 1:
+                    tgt = _flat(ast.unparse(st.targets[0]))
+                    raw[tgt] = _flat(ast.unparse(st.value))
+                    v = ev(st.value)
+                    if v is None:
+                        v = st.value
+                        # a local that merely names another local (obs['health_status'] = health_status)
+                        if isinstance(v, ast.Name) and v.id in env:
+                            v = env[v.id]
+                    env[tgt] = v
+                elif isinstance(st, ast.Return):
+                    out["ret"] = _flat(ast.unparse(st.value)) if st.value is not None else "None"
+                    raise Ret()
+                else:
+                    raise ValueError(f"FolderObservation.observe: statement shape not recognised: {_flat(ast.unparse(st))[:80]}")
+        try:
+            block(fn.body)
+        except Ret:
+            pass
+
+        def show(x):
+            return "-" if x is None else (_flat(ast.unparse(x)) if isinstance(x, ast.AST) else str(x))
+        health = env.get("obs['health_status']")
+        caches = raw.get("self.cached_obs") == "obs" and out["ret"] == "obs"
+        uuid = show(env.get("self._cached_uuid"))
+        return (out["ret"], show(health), caches, uuid)
+
+    rows = []
+    for k in range(2 ** len(OBS_BITS)):
+        val = {b: bool((k >> (len(OBS_BITS) - 1 - i)) & 1) for i, b in enumerate(OBS_BITS)}
+        val["files"] = False
+        rows.append(([val[b] for b in OBS_BITS], run(val)))
+    return rows
+
+
 def pre_chain() -> List[Tuple[str, str, str, str]]:
     """rows (scope, receiver.pre_timestep, loop it sits in, guard): every call of a `pre_timestep` inside the `pre_timestep`
     methods on the path game -> simulation -> network -> node -> file system -> folder"""
@@ -695,6 +781,10 @@ deriving DecidableEq, Repr
 /-- `FolderObservation.observe` as a guarded-effect table (effect, guard, value) -/
 def folderObserve : List (String × String × String) := [
   {(",{}  ".format(chr(10))).join("(" + ", ".join(lstr(c) for c in r) + ")" for r in decision_rows(find_method(class_def(parse(OBS), "FolderObservation"), "observe")))}]
+/-- `FolderObservation.observe` executed symbolically for every valuation of (absent, requires_scan, scanned_this_step, no uuid
+cached, cached uuid = the folder's): (valuation, returned, reported health, cache written?, cached uuid written) -/
+def folderObserveTruth : List (List Bool × String × String × Bool × String) := [
+  {(",{}  ".format(chr(10))).join("([" + ", ".join("true" if x else "false" for x in a) + "], " + lstr(b[0]) + ", " + lstr(b[1]) + ", " + ("true" if b[2] else "false") + ", " + lstr(b[3]) + ")" for a, b in observe_truth())}]
 /-- every `pre_timestep` call on the path game -> folder: (scope, call, enclosing loops, guard) -/
 def preChain : List (String × String × String × String) := [
   {(",{}  ".format(chr(10))).join("(" + ", ".join(lstr(c) for c in r) + ")" for r in pre_chain())}]
